@@ -55,3 +55,12 @@ proof fn lemma_chunks(l: usize, n: usize)
     vstd::arithmetic::div_mod::lemma_fundamental_div_mod(l as int, n as int);
     assert((l / n) * n == n * (l / n)) by (nonlinear_arith);
 }
+
+// const_transmute: reading field `b` of `union { a: A, b: B }` after writing `a` reinterprets size_of::<B>() bytes, of which only
+// size_of::<A>() were written: defined only when the sizes agree (what mem::transmute checks at compile time)
+pub struct Bits { pub size: usize }
+#[verifier::external_body]
+pub fn union_reinterpret(a: Bits, size_b: usize) -> (b: Bits)
+    requires a.size == size_b,
+    ensures b.size == size_b,
+{ unimplemented!() }
